@@ -65,7 +65,9 @@ Definition skipped_by_sampling (rate : option nat) (draw : nat) : bool :=
   sampling rate && negb (Nat.eqb draw 0).
 
 (* the gate of __call__ (event support is in the constructor) *)
-Definition gated (c : code) : bool := c_trace_types c || negb (c_admit c).
+Definition gate_on (tag : string) : bool := existsb (String.eqb tag) tr_call_gates.
+Definition gated (c : code) : bool :=
+  (gate_on "trace_types" && c_trace_types c) || (gate_on "filter_rejects" && negb (c_admit c)).
 
 (* handle_call, guards in the order tr_handle_call_steps records *)
 Definition handle_call (rate : option nat) (s : tstate) (f : N) (c : code) (args : list (string * ty)) (draw : nat)
